@@ -70,7 +70,14 @@ def h_validate_first(c0: bytes, c1: bytes, target: int, body: bytes) -> bool:
 CT_PARAMS = ["", "; charset=utf-8", "; charset=utf-8; component=VEVENT", ";charset=utf-8;x=1;y=2"]
 
 
-def body_web_invalid(body, exists, vcf, nparams):
+def _precondition(r):
+    """Tag of the precondition element of a DAV error answer (None if there is none)."""
+    v = r.value
+    err = getattr(v, "error", None)
+    return err.tag if err is not None else None
+
+
+def body_web_invalid(body, exists, vcf, nparams, post=False, ifmatch=False):
     name = "c.vcf" if vcf else "a.ics"
     col = mweb.AB if vcf else mweb.CAL
     cal_state = {"a.ics": b"xa"} if (exists and not vcf) else {}
@@ -78,22 +85,46 @@ def body_web_invalid(body, exists, vcf, nparams):
     w = mweb.fresh_world(cal_state, ab_state)
     app = mweb.make_app()
     before = Wm.digest(w)
-    r = mweb.call(app, "PUT", col + "/" + name, body=body,
-                  content_type=("text/vcard" if vcf else "text/calendar") + CT_PARAMS[nparams])
+    ctype = ("text/vcard" if vcf else "text/calendar") + CT_PARAMS[nparams]
+    if post:
+        r = mweb.call(app, "POST", col + "/", body=body, content_type=ctype)
+    else:
+        r = mweb.call(app, "PUT", col + "/" + name, body=body, content_type=ctype)
     if body[:1] == b"!":
-        ok = r.status_class == "412" and Wm.digest(w) == before
+        # refused with THE precondition of the respective standard, nothing stored (no new member either)
+        # (the statement does not say WHICH validity precondition; xandikos answers valid-calendar-data for cards
+        # too - its TODO - so either standard's is accepted, anything else, e.g. no-uid-conflict, is not)
+        want = ("{urn:ietf:params:xml:ns:carddav}valid-address-data", "{urn:ietf:params:xml:ns:caldav}valid-calendar-data")
+        ok = r.status_class == "412" and _precondition(r) in want and Wm.digest(w) == before
         return (ok, "invalid")
+    if post:
+        return (r.status_class == "2xx", "valid-post")
     g = mweb.call(app, "GET", col + "/" + name)
     ok = r.status_class == "2xx" and g.status_class == "2xx" and g.body == SP.norm(name, body)
+    if not ok:
+        return (False, "valid")
+    # uploading again what the server serves is a no-op: same ETag, same collection tag, no new commit
+    etag = g.header("ETag")
+
+    def ctag():
+        p = mweb.call(app, "PROPFIND", col + "/", headers=[("Depth", "0")], xml=mweb.propfind_body("{DAV:}getctag"))
+        return mweb.prop_text(p.statuses[0], "{DAV:}getctag") if p.kind == "multistatus" and p.statuses else None
+
+    tag0, commits0 = ctag(), mstore.head_commits(mweb.ROOT + col)
+    hdrs = [("If-Match", etag)] if ifmatch else []
+    r2 = mweb.call(app, "PUT", col + "/" + name, body=g.body, content_type=ctype, headers=hdrs)
+    g2 = mweb.call(app, "GET", col + "/" + name)
+    ok = r2.status_class == "2xx" and r2.header("ETag") == etag and g2.header("ETag") == etag and g2.body == g.body
+    ok = ok and ctag() == tag0 and tag0 is not None and mstore.head_commits(mweb.ROOT + col) == commits0
     return (ok, "valid")
 
 
-def h_web_invalid(body: bytes, exists: bool, vcf: bool, nparams: int) -> bool:
+def h_web_invalid(body: bytes, exists: bool, vcf: bool, nparams: int, post: bool, ifmatch: bool) -> bool:
     """
     pre: 1 <= len(body) <= ctx.b.blen and 0 <= nparams <= 3
     post: _
     """
-    return run(body_web_invalid, body, exists, vcf, nparams)
+    return run(body_web_invalid, body, exists, vcf, nparams, post, ifmatch)
 
 
 # ------------------------------------------------------------------ (d) the real validators, parsers stubbed
@@ -335,12 +366,15 @@ HARNESSES = [
             describe="import_one: invalid => InvalidFileContents and ZERO mutations; valid => stored == normalized(body); "
                      "re-upload of the served bytes is a no-op (etag, ctag, commits); part = back end",
             encodes=_store.STEP_ENCODES),
-    Harness("web_invalid", h_web_invalid, body_web_invalid, classes=["invalid", "valid"], bounds=_B,
-            budget={"quick": 60, "thorough": 300},
-            describe="PUT of an invalid body through the real web layer: 412 and the world is unchanged; valid: GET serves "
-                     "the normalised body",
-            encodes=["xandikos.webdav.PutMethod.handle", "xandikos.web.ObjectResource.set_body",
-                     "xandikos.web.StoreBasedCollection.create_member"]),
+    Harness("web_invalid", h_web_invalid, body_web_invalid, classes=["invalid", "valid", "valid-post"], bounds=_B,
+            budget={"quick": 90, "thorough": 300}, twin_budget={"quick": 60, "thorough": 120},
+            describe="PUT / POST(add-member) of an invalid body through the real web layer: 412 with a validity precondition "
+                     "(valid-calendar-data / valid-address-data) and the world unchanged; valid: GET serves the normalised body, and "
+                     "uploading the served bytes again (with or without If-Match) keeps ETag, collection tag and commit "
+                     "count",
+            encodes=["xandikos.webdav.PutMethod.handle", "xandikos.webdav.PostMethod.handle", "xandikos.web.ObjectResource.set_body",
+                     "xandikos.web.StoreBasedCollection.create_member", "xandikos.webdav.DAVGetCTagProperty.get_value",
+                     "xandikos.store.git.TreeGitStore._import_one"]),
     Harness("corpus", h_corpus, body_corpus, classes=["valid", "invalid"], budget={"quick": 60, "thorough": 120},
             describe="%d real bodies (valid ones incl. LF-only endings, folded and long lines, grouped vCard properties, astral "
                      "text, VTIMEZONE / TZID, RRULE / EXDATE / RDATE; one member of each invalid class incl. control "
